@@ -82,7 +82,7 @@ def run_walk(rng, name, cfg, objs, focus, n_agents, n_steps, perturb, resets, se
                     return None
             picks = [WL.ip2n(p) for p in rec.picks]
             v = WL.impl_view(gs)
-            wk.ops.append((f"OInit {ag} {WR.start_pos_term(sp)} [{'; '.join(f'{p}%N' for p in picks)}] {WL.view_term(v, I)}", "init",
+            wk.ops.append((f"OInit {ag} {WR.start_pos_term(sp, I)} [{'; '.join(f'{p}%N' for p in picks)}] {WL.view_term(v, I)}", "init",
                            f"init agent {ag} {sp}"))
             history.append({"op": "init", "agent": ag, "start_position": sp})
             snapshots.append((ag, copy.deepcopy(gs), gs))
@@ -98,8 +98,16 @@ def run_walk(rng, name, cfg, objs, focus, n_agents, n_steps, perturb, resets, se
                     ctrl.append("random")
                 else:
                     ctrl.append("all_local")
-            return {"nets": rng.sample(nets, min(len(nets), rng.randrange(0, 2))),
-                    "hosts": rng.sample(all_ips, min(len(all_ips), rng.randrange(0, 3))), "ctrl": ctrl}
+            sp = {"nets": rng.sample(nets, min(len(nets), rng.randrange(0, 2))),
+                  "hosts": rng.sample(all_ips, min(len(all_ips), rng.randrange(0, 3))), "ctrl": ctrl}
+            if rng.random() < 0.3 and all_ips:
+                h = rng.choice(all_ips)
+                pool = sorted(T0["services"].get(T0["ip2host"][h], set())) + [("extra", "passive", "1.0", False)]
+                sp["svcs"] = {h: set(rng.sample(pool, rng.randrange(1, len(pool) + 1)))}
+            if rng.random() < 0.3 and all_ips:
+                h = rng.choice(all_ips)
+                sp["data"] = {h: {("User1", "DataFromServer1", 0, ""), ("Start", "Data", 0, "")}}
+            return sp
 
         starts = [gen_start() for _ in range(n_agents)]
         if shared:
